@@ -497,17 +497,17 @@ def correspondence(ctx, model_ok=True):
         elif code >= 10:
             why = []
             if (code // 10) % 2 == 1:
-                why.append("NaN kernel value: the stencil of a particle is inside the lattice but the kernel the implementation "
+                why.append("C16-nan-kernel|NaN kernel value: the stencil of a particle is inside the lattice but the kernel the implementation "
                            "evaluated is not finite, so a hypothesis of the conservation theorem fails")
             if code // 10 >= 2:
-                why.append("normalisation refused: the stencil of a particle is inside the lattice and its kernel sum is not zero, "
+                why.append("C16-norm-guard|normalisation refused: the stencil of a particle is inside the lattice and its kernel sum is not zero, "
                            "but the guard in front of `/= norm` does not let the normalisation happen")
             # make the loss observable: the offending particles alone, counted by number
             wit = [c] + [dict({k: v for k, v in c.items() if k != "prior"}, quantity="number_density", add=False, particles=[p])
                          for p in c["particles"]]
             bad = next((w for w in wit if oracle(w)), None)
             for w in why:
-                out["failures"].append(Failure(shrink(bad) if bad else c, w))
+                out["failures"].append(Failure(shrink(bad) if bad else c, w.split("|")[1], key=w.split("|")[0]))
     return out
 
 
